@@ -110,7 +110,7 @@ theorem cov_pre (st : St) (e : Ev) (h : CoveredV (view st)) : CoveredV (view (pr
     simp only [pre]
     split
     · exact cov_map_reqs st _ _ rfl (fun _ hl => hl)
-        (keep_toAcked (fun r => r.phase == Phase.waitAck) (fun r hc => by simpa using hc)) h
+        (keep_toAcked (fun r => r.phase == Phase.waitAck && r.gen == st.gen) (fun r hc => by simp at hc; exact hc.1)) h
     · exact h0
   | rxRsp key =>
     simp only [pre]
@@ -183,6 +183,11 @@ theorem cov_pre (st : St) (e : Ev) (h : CoveredV (view st)) : CoveredV (view (pr
     · exact cov_same st _ rfl (fun _ hl => hl) h
     · exact cov_same st _ rfl (fun _ hl => hl) h
   | setReset b => exact cov_same st _ rfl (fun _ hl => hl) h
+  | connect =>
+    simp only [pre]
+    split
+    · exact h0
+    · exact cov_same st _ rfl (fun _ hl => hl) h
 
 /-- every state the event loop can be in, under every scheduling order -/
 theorem mreach_cov (hist : List Out) (st : St) (h : MReach hist st) : CoveredV (view st) := by
@@ -217,7 +222,7 @@ theorem shut_of_frame {st st' : St} (hf : Frame st st') (h : Shut st) : Shut st'
 theorem shut_foldl_unwind (ids : List Nat) (st : St) (o : Outcome) (h : Shut st) :
     Shut (ids.foldl (fun s i => unwind s i o) st) := shut_of_frame (frame_foldl_unwind ids st o) h
 
-theorem shut_pre (st : St) (e : Ev) (h : Shut st) : Shut (pre st e).1 := by
+theorem shut_pre (st : St) (e : Ev) (hne : e ≠ .connect) (h : Shut st) : Shut (pre st e).1 := by
   obtain ⟨ho, hl⟩ := h
   cases e with
   | start id key blocking nfrags timeout =>
@@ -261,6 +266,7 @@ theorem shut_pre (st : St) (e : Ev) (h : Shut st) : Shut (pre st e).1 := by
       · exact ⟨ho, rfl⟩
   | lost => simp only [pre]; split <;> exact ⟨rfl, hl⟩
   | setReset b => exact ⟨ho, hl⟩
+  | connect => exact absurd rfl hne
 
 theorem shut_sched (st st' : St) (h : Shut st) (hs : Sched st st') : Shut st' := by
   cases hs with
@@ -270,11 +276,11 @@ theorem shut_sched (st st' : St) (h : Shut st) (hs : Sched st st') : Shut st' :=
 theorem shut_settle (fuel : Nat) (st : St) (h : Shut st) : Shut (settle fuel st) :=
   shut_of_frame (frame_settle fuel st) h
 
-theorem shut_step (st : St) (e : Ev) (h : Shut st) : Shut (step st e) := by
+theorem shut_step (st : St) (e : Ev) (hne : e ≠ .connect) (h : Shut st) : Shut (step st e) := by
   rw [step_eq_pre]
   cases (pre st e).2
-  · exact shut_pre st e h
-  · exact shut_settle _ _ (shut_pre st e h)
+  · exact shut_pre st e hne h
+  · exact shut_settle _ _ (shut_pre st e hne h)
 
 /-! ### what a task step does to a request whose response future is no longer pending -/
 
